@@ -31,9 +31,11 @@ RULE = ("ALL command sequences up to a length bound over {assert fresh|repeated,
         "pop 0|1|2, reset-assertions, check-sat, maximize} (scripts; legal ones and those whose LAST command is an "
         "illegal pop) and {add_assertion, push 0|1|2, pop 0|1|2, reset_assertions, solve, is_sat, is_valid, is_unsat, "
         "solve([f]), read assertions, is_sat / is_valid / solve whose native check raises unknown, is_sat whose add_assertion "
-        "raises} (solvers), all interleavings of two live solver instances up to length 4 (thorough 5) over {add, push 1, pop 1, "
+        "raises, solve([non-literal]) through a temporary level and the same with add_assertion raising (classes that have that path)} "
+        "(solvers), all interleavings of two live solver instances up to length 4 (thorough 5) over {add, push 1, pop 1, "
         "is_sat, read, exit}, soft clauses drawn from two clauses only so that the same clause recurs under the same id, the "
-        "other id and after a pop, plus seeded random sequences of length 8-60 with all four objective "
+        "other id and after a pop; scripts executed on a tracking solver through SmtLibScript.evaluate / InterpreterOMT (all of length "
+        "<= 4 over assert/push/pop/reset/check-sat/other, and over assert/push 1/pop 1/check-sat/maximize/get-objectives), plus seeded random sequences of length 8-60 with all four objective "
         "kinds, :signed, weights, three soft ids.  Non-trivial = a pop/reset actually removed an item, a soft id was "
         "reused, or (solvers) a one-shot query was followed by another call.")
 ASSUMPTIONS = [
@@ -41,6 +43,7 @@ ASSUMPTIONS = [
     "the native solver behind the proxies is an ideal SMT-LIB assertion stack (played by a strict stack object in the harness)",
     "formulas, weights, objectives are opaque to the bookkeeping (the harness uses Boolean symbols and their negations; is_valid is given atoms, because FormulaManager.Not collapses double negation)",
     "_last_command/_last_result of IncrementalTrackingSolver are not part of the property",
+    "the assumption path of BddSolver/YicesSolver/MathSAT5Solver/PicosatSolver/Z3Solver (push; add_assertion(And(..)); pending_pop = True inside solve) is exercised through harness classes that copy the shape of that body, with the guard where tools/gen_pendingpop.py finds one: repycudd, yices, mathsat, picosat are not installed (Z3Solver itself runs in the thorough tier's secondary run)",
     "exceptions of the native solver are modelled for the check (SolverReturnedUnknownResultError) and for asserting the formula of a one-shot query; the client catches them and goes on using the solver",
 ]
 
@@ -129,6 +132,9 @@ class PySide(object):
         for i in range(self.NSYM):
             s = mgr.Symbol("v%d" % i, BOOL)
             self.form[2 * i], self.form[2 * i + 1] = s, mgr.Not(s)
+        for i in range(self.NSYM):
+            # ids >= 1000: formulas that are not literals (assumptions the wrappers cannot pass natively)
+            self.form[1000 + 2 * i] = mgr.Or(self.form[2 * i], self.form[2 * ((i + 1) % self.NSYM)])
         for k, v in self.form.items():
             self.fid[v] = k
         self.terms = [mgr.Symbol("t%d" % i, INT) for i in range(self.NSYM)]
@@ -136,9 +142,12 @@ class PySide(object):
                       (smtcmd.MINMAX, MinMaxGoal, True), (smtcmd.MAXMIN, MaxMinGoal, True)]
         self.idname = {0: "", 1: "x", 2: "goal two"}
         self._cmd_cache = {}
+        self.getobj = SmtLibCommand(smtcmd.GET_OBJECTIVES, [])
+        self.termid = {t: i for i, t in enumerate(self.terms)}
         self._goal_key = {}                  # (class, term, signed) -> g
         self.others = [SmtLibCommand(smtcmd.SET_LOGIC, ["QF_LIA"]), SmtLibCommand(smtcmd.GET_MODEL, []),
                        SmtLibCommand(smtcmd.DECLARE_FUN, [self.form[0]]), SmtLibCommand(smtcmd.EXIT, [])]
+        self.route_others = [self.others[0], self.others[2]]      # set-logic, declare-fun: harmless on any solver
 
     # objective g encodes: kind = g % 4, signed = (g // 4) % 2, term index = g // 8
     def command(self, tok):
@@ -238,7 +247,11 @@ class PySide(object):
     # ------------------------------------------------------------------------------------- toy solvers
     def solver_class(self, cfg):
         """A minimal concrete solver with @clear_pending_pop placed as `cfg` says.
-        cfg = 9 chars 0/1: dAdd dPush dPop dReset dSolve dRead tracking native pushSupported."""
+        cfg = 11 chars 0/1: dAdd dPush dPop dReset dSolve dRead tracking native pushSupported assumePush
+        assumeGuarded.  With assumePush the body of solve/_solve has the shape of the wrappers' (z3.py:211-228,
+        yices.py:205-210, bdd.py:179-184; none of bdd/yices/msat/pico can be imported here, their native modules are
+        missing): assumptions that are not literals are asserted in a pushed level and `pending_pop` is set -- inside
+        `try/finally` when assumeGuarded (Z3Solver), in straight-line code otherwise (the others)."""
         cache = self.__dict__.setdefault("_classes", {})
         if cfg in cache:
             return cache[cfg]
@@ -248,7 +261,8 @@ class PySide(object):
         from pysmt.logics import QF_BOOL
         from pysmt.exceptions import SolverReturnedUnknownResultError, ConvertExpressionError
         self.expected_exc = (SolverReturnedUnknownResultError, ConvertExpressionError)
-        dAdd, dPush, dPop, dReset, dSolve, dRead, tracking, native, pushsup = (ch == "1" for ch in cfg)
+        dAdd, dPush, dPop, dReset, dSolve, dRead, tracking, native, pushsup, apush, aguard = (ch == "1" for ch in cfg)
+        mgr = self.mgr
         fid = self.fid
 
         class Options(SolverOptions):
@@ -286,6 +300,22 @@ class PySide(object):
                 self.nat = [[]]
 
         def n_solve(self, assumptions=None):
+            if apush and assumptions is not None:
+                # the wrappers' assumption path (copied shape): literals go to the native check, the rest is asserted
+                # in a level of its own that the next command removes
+                bool_ass = [x for x in assumptions if x.is_literal()]
+                other_ass = [x for x in assumptions if not x.is_literal()]
+                if len(other_ass) > 0:
+                    self.push()
+                    if aguard:
+                        try:
+                            self.add_assertion(mgr.And(other_ass))
+                        finally:
+                            self.pending_pop = True
+                    else:
+                        self.add_assertion(mgr.And(other_ass))
+                        self.pending_pop = True
+                assumptions = bool_ass
             if native:
                 seen = [x for lv in self.nat for x in lv]
             else:
@@ -294,7 +324,9 @@ class PySide(object):
             if self.fail_solve:
                 self.fail_solve = False
                 raise SolverReturnedUnknownResultError()
-            return True
+            # the verdict: the formulas are literals (id ^ 1 = the negation) or disjunctions (ids >= 1000, ignored)
+            lits = set(x for x in self.log[-1] if x < 1000)
+            return not any((x ^ 1) in lits for x in lits)
 
         if tracking:
             class Toy(IncrementalTrackingSolver):
@@ -340,6 +372,79 @@ class PySide(object):
                     pass
         cache[cfg] = Toy
         return Toy
+
+    def route_class(self, cfg):
+        """The toy tracking solver of `cfg`, usable where the library expects an SMT-LIB front end and an optimizer:
+        `SmtLibScript.evaluate(solver)` calls assert_/check_sat/push/pop/reset_assertions (SmtLibBasicSolver forwards
+        them to the solver API) and, once objectives exist, `optimize(goal)`.  `optimize` runs one native check and
+        answers with a value that identifies the call (number of the call, number of live assertions)."""
+        cache = self.__dict__.setdefault("_route_classes", {})
+        if cfg in cache:
+            return cache[cfg]
+        from pysmt.solvers.smtlib import SmtLibBasicSolver
+        from pysmt.optimization.optimizer import Optimizer
+        Toy = self.solver_class(cfg)
+        mgr = self.mgr
+
+        class Route(Toy, SmtLibBasicSolver, Optimizer):
+            def __init__(self, env):
+                Toy.__init__(self, env)
+                self.opt_calls = 0
+
+            def optimize(self, goal, **kwargs):
+                self.opt_calls += 1
+                if not self.solve():
+                    return None
+                return None, mgr.Int(self.opt_calls * 1000 + len(self.log[-1]))
+
+            def pareto_optimize(self, goals):
+                raise NotImplementedError
+
+            def lexicographic_optimize(self, goals):
+                raise NotImplementedError
+
+            def boxed_optimize(self, goals):
+                raise NotImplementedError
+
+            def can_diverge_for_unbounded_cases(self):
+                return False
+        cache[cfg] = Route
+        return Route
+
+    def route(self, cfg, toks):
+        """Execute the script through the interpreter that `SmtLibScript.evaluate` uses, command by command.
+        Returns per command: (snapshot or 'err …', ids of the raw assertion list, returned value rendered)."""
+        from pysmt.smtlib.script import InterpreterOMT
+        s = self.route_class(cfg)(self.env)
+        inter = InterpreterOMT()
+        steps = []
+        for i, t in enumerate(toks):
+            cmd = self.getobj if t == "G" else (self.route_others[i % 2] if t == "x" else self.command(t))
+            try:
+                r = inter.evaluate(cmd, s)
+            except Exception as e:
+                steps.append((self.error_outcome(e), None, None))
+                break
+            if t == "c":
+                rv = "sat" if r is True else ("unsat" if r is False else repr(r))
+            elif t == "G":
+                rv = ",".join("%s=%s" % (self.termid.get(tm, "?"), v.constant_value()) for (tm, v) in r)
+            else:
+                rv = None
+            steps.append((self.snapshot(s, True), [self.fid[x] for x in s._assertion_stack], rv))
+        return steps, s
+
+    def route_whole(self, cfg, toks):
+        """the public entry point itself: SmtLibScript.evaluate(solver) on the whole script"""
+        s = self.route_class(cfg)(self.env)
+        scr = self.SmtLibScript()
+        for i, t in enumerate(toks):
+            scr.add_command(self.getobj if t == "G" else (self.route_others[i % 2] if t == "x" else self.command(t)))
+        try:
+            log = scr.evaluate(s)
+        except Exception as e:
+            return self.error_outcome(e), None
+        return self.snapshot(s, True), [("sat" if r is True else "unsat") for (n, r) in log if n == self.smtcmd.CHECK_SAT and isinstance(r, bool)]
 
     def snapshot(self, s, tracking):
         nat = "|".join(ids(lv) for lv in reversed(s.nat))
@@ -404,6 +509,16 @@ class PySide(object):
                 raised = True
             finally:
                 s.fail_solve = s.fail_add = False
+        elif k == "w":
+            s.solve([form[int(t[1:])]])
+        elif k == "W":
+            s.fail_add = True
+            try:
+                s.solve([form[int(t[1:])]])
+            except self.expected_exc:
+                raised = True
+            finally:
+                s.fail_add = False
         elif k == "S":
             s.fail_solve = True
             try:
@@ -484,11 +599,15 @@ class NativeError(Exception):
     pass
 
 
+CFG_CLASSES = {}             # placement bits -> "+".join(classes of the tree that have it); filled by run()/replay()
+
+
 class CaseTimeout(BaseException):
     """raised by the SIGALRM watchdog: one case ran longer than CASE_DEADLINE_S"""
 
 
-CASE_DEADLINE_S = 3.0        # a single history never needs more than milliseconds
+CASE_DEADLINE_S = 2.5        # CPU seconds; a single history never needs more than milliseconds
+CASE_WALL_S = 60.0           # wall-clock backstop (blocked, not spinning); generous: the machine may be overloaded
 BUNDLE_BUDGET_S = 110.0      # set by run() from the tier's budget before the workers are forked
 
 
@@ -501,24 +620,43 @@ def watchdog_install():
     import threading
     if threading.current_thread() is threading.main_thread():
         signal.signal(signal.SIGALRM, _on_alarm)
+        signal.signal(signal.SIGPROF, _on_alarm)
         return True
     return False
 
 
 class deadline(object):
-    """`with deadline():` -- the body is interrupted by CaseTimeout after CASE_DEADLINE_S seconds."""
+    """`with deadline():` -- the body is interrupted by CaseTimeout after CASE_DEADLINE_S seconds of CPU time of this
+    process (a spinning case; CPU time so that an overloaded machine cannot fake a hang) or CASE_WALL_S seconds of
+    wall-clock time (a blocked case)."""
     armed = False
+
+    def __init__(self, factor=1.0):
+        self.factor = factor
 
     def __enter__(self):
         import signal
         if deadline.armed:
-            signal.setitimer(signal.ITIMER_REAL, CASE_DEADLINE_S)
+            signal.setitimer(signal.ITIMER_PROF, CASE_DEADLINE_S * self.factor)
+            signal.setitimer(signal.ITIMER_REAL, CASE_WALL_S * self.factor)
 
     def __exit__(self, *a):
         import signal
         if deadline.armed:
+            signal.setitimer(signal.ITIMER_PROF, 0)
             signal.setitimer(signal.ITIMER_REAL, 0)
         return False
+
+
+def guarded(fn):
+    """Run `fn()` under the per-case deadline; a timeout is believed only when it happens again with twice the time."""
+    try:
+        with deadline():
+            return fn()
+    except CaseTimeout:
+        pass
+    with deadline(2.0):
+        return fn()
 
 
 class OutOfTime(Exception):
@@ -559,13 +697,15 @@ def py():
 # --------------------------------------------------------------------------------------------- enumeration
 SCRIPT_ALPHA = ["A", "B", "S0", "S1", "u0", "u1", "u2", "p0", "p1", "p2", "r", "c", "O"]
 TRACK_ALPHA = ["A", "u0", "u1", "u2", "p0", "p1", "p2", "r", "s", "QS", "QV", "QU", "QA", "g",
-               "XS", "XV", "YS", "SX"]      # queries that raise: check of is_sat / is_valid, assertion of is_sat's formula, solve()
-FAILING = ["XS", "XV", "YS", "SX"]
+               "XS", "XV", "YS", "SX",      # queries that raise
+               "WP", "WF"]                  # solve([non-literal]): through a temporary level; … asserting it raises: check of is_sat / is_valid, assertion of is_sat's formula, solve()
+FAILING = ["XS", "XV", "YS", "SX", "WP", "WF"]
 
 
 def track_alpha(cfg):
     """no `g` for classes without an assertion list; no explicit push/pop when push is not implemented"""
-    return [a for a in TRACK_ALPHA if (a != "g" or cfg[6] == "1") and (a[0] not in "up" or cfg[8] == "1")]
+    return [a for a in TRACK_ALPHA if (a != "g" or cfg[6] == "1") and (a[0] not in "up" or cfg[8] == "1")
+            and (a[0] != "W" or (cfg[9] == "1" and cfg[8] == "1"))]
 
 
 def instantiate(sym, pos):
@@ -590,6 +730,10 @@ def instantiate(sym, pos):
         return "ys%d" % (2 * (pos + 1))
     if sym == "SX":
         return "S"
+    if sym == "WP":
+        return "w%d" % (1000 + 2 * (pos + 1))
+    if sym == "WF":
+        return "W%d" % (1000 + 2 * (pos + 1))
     return sym
 
 
@@ -669,7 +813,7 @@ def random_script(rng, n, illegal_end):
     return toks, legal
 
 
-def random_ops(rng, n, tracking, pushsup, illegal_end):
+def random_ops(rng, n, tracking, pushsup, illegal_end, apush=False):
     toks, nlev = [], 1
     for i in range(n):
         r = rng.random()
@@ -692,7 +836,8 @@ def random_ops(rng, n, tracking, pushsup, illegal_end):
         elif r < 0.82:
             toks.append("q%s%d" % (rng.choice("svua"), f))
         elif r < 0.90:
-            toks.append(rng.choice(["x%s%d" % (rng.choice("svua"), f), "y%s%d" % (rng.choice("svua"), f), "S"]))
+            more = ["w%d" % (1000 + f), "w%d" % (1000 + f), "W%d" % (1000 + f)] if (apush and pushsup) else []
+            toks.append(rng.choice(["x%s%d" % (rng.choice("svua"), f), "y%s%d" % (rng.choice("svua"), f), "S"] + more))
         elif tracking:
             toks.append("g")
         else:
@@ -784,9 +929,7 @@ def check_scripts(cases, res, use_lean=True, batch=None):
         if n % 512 == 0:
             check_bundle_time()
         try:
-            with deadline():
-                a1 = P.last_formula(toks)
-                a2 = P.strict_formula(toks)
+            a1, a2 = guarded(lambda: (P.last_formula(toks), P.strict_formula(toks)))
         except CaseTimeout:
             a1 = a2 = "err hang"
             impl.append((a1, a2))
@@ -862,11 +1005,12 @@ def _compare_scripts(cases, impl, model, res):
 def op_kind(t):
     q = {"s": "is_sat", "v": "is_valid", "u": "is_unsat", "a": "solve_assumptions"}.get(t[1:2], "?")
     return {"a": "add_assertion", "u": "push", "p": "pop", "r": "reset_assertions", "s": "solve", "g": "assertions",
-            "q": q, "x": q + "!unknown", "y": q + "!assert", "S": "solve!unknown"}[t[0]]
+            "q": q, "x": q + "!unknown", "y": q + "!assert", "S": "solve!unknown",
+            "w": "solve_assumptions_push", "W": "solve_assumptions_push!assert"}[t[0]]
 
 
 def is_oneshot(t):
-    return t[0] in "qxy" and t[1] != "a"
+    return (t[0] in "qxy" and t[1] != "a") or t[0] in "wW"
 
 
 def check_tracks(cfg, who, cases, res, search, use_lean=True, batch=None):
@@ -882,12 +1026,16 @@ def check_tracks(cfg, who, cases, res, search, use_lean=True, batch=None):
         if n % 512 == 0:
             check_bundle_time()
         out, reads = [], []
+
+        def one_case():
+            del out[:], reads[:]
+            o, r, solver = P.track(cfg, toks, out, reads)
+            fin = None
+            if search and legal and not (o and o[-1].startswith("err")):
+                fin = P.final_observation(solver, tracking)
+            return o, r, fin
         try:
-            with deadline():
-                out, reads, solver = P.track(cfg, toks, out, reads)
-                final = None
-                if search and legal and not (out and out[-1].startswith("err")):
-                    final = P.final_observation(solver, tracking)
+            out, reads, final = guarded(one_case)
         except CaseTimeout:
             out, reads, final = out[:len(toks) - 1] + ["err hang"], reads, None
             hung = True
@@ -963,12 +1111,17 @@ def _judge_track(cfg, who, toks, legal, out, reads, final, m, sp, res, search, e
             if t[0] in "xyS" and not out[i].endswith("!") and not (t[0] == "y" and (t[1] == "a" or cfg[8] == "0")):
                 bad = (i, "the exception of the native call did not reach the caller")
                 break
-            if t[0] in "sSqx" or (t[0] == "y" and (t[1] == "a" or cfg[8] == "0")):
+            if t[0] == "W" and cfg[9] == "1" and not out[i].endswith("!"):
+                bad = (i, "the exception of add_assertion did not reach the caller")
+                break
+            if t[0] in "sSqxw" or (t[0] == "y" and (t[1] == "a" or cfg[8] == "0")) or (t[0] == "W" and cfg[9] == "0"):
                 seen = out[i].rstrip("!").rsplit("/", 1)[1]
                 exp_l = [int(x) for x in lives[i].split(",")] if lives[i] != "-" else []
                 if t[0] in "qxy":
                     f = int(t[2:])
                     exp_l = exp_l + [f + 1 if t[1] == "v" else f]
+                elif t[0] in "wW":
+                    exp_l = exp_l + [int(t[1:])]
                 if seen != ids(exp_l):
                     bad = (i, "the check ran on [%s], expected [%s]" % (seen, ids(exp_l)))
                     break
@@ -987,6 +1140,12 @@ def _judge_track(cfg, who, toks, legal, out, reads, final, m, sp, res, search, e
                "call": op_kind(toks[i]) if i < len(toks) else "end", "pending_from": prev}
         if extra:
             sig["shape"] = "two-instances"
+        if cfg[9] == "1" and cfg[10] == "0" and any(t[0] == "W" for t in toks[:i + 1]):
+            # the history contains a solve(assumptions) whose add_assertion raised, on a placement that does not
+            # protect that path (finding F44): the level it pushed is still open
+            sig["leak_from"] = "solve_assumptions_push!assert"
+            sig["assume_guarded"] = "0"
+            sig["classes"] = CFG_CLASSES.get(cfg, "synthetic")     # the known finding names the classes it is about
         res.s.append((sig,
                       "%s (placement of %s%s): step %d `%s`: %s" % ("solver", who, label, i, toks[i] if i < len(toks) else "end", msg),
                       dict({"kind": "track", "cfg": cfg, "who": who, "ops": body, "implementation": ";".join(out),
@@ -1028,7 +1187,7 @@ def enum_duos(depth, tracking):
 def random_duo(rng, cfgs):
     parts = []
     for c in cfgs:
-        toks, _ = random_ops(rng, rng.randrange(2, 14), c[6] == "1", c[8] == "1", False)
+        toks, _ = random_ops(rng, rng.randrange(2, 14), c[6] == "1", c[8] == "1", False, c[9] == "1")
         if rng.random() < 0.3:
             toks.append("e")
         parts.append(toks)
@@ -1042,6 +1201,8 @@ def random_duo(rng, cfgs):
         if t[0] in "aqxy" and t != "a0":
             head = t[0] if t[0] == "a" else t[:2]
             t = head + str(2 * (1 + len(steps) % 70))
+        elif t[0] in "wW":
+            t = t[0] + str(1000 + 2 * (1 + len(steps) % 70))
         steps.append((k, t))
         idx[k] += 1
     return steps
@@ -1067,13 +1228,15 @@ def check_duos(cfgs, who, cases, res, use_lean=True, batch=None):
     for n, steps in enumerate(cases):
         if n % 256 == 0:
             check_bundle_time()
+        def one_duo():
+            outs, reads, solvers, exited, cross, fresh = P.duo(cfgs, steps)
+            finals = []
+            for k in (0, 1):
+                ok = not exited[k] and not (outs[k] and outs[k][-1].startswith("err"))
+                finals.append(P.final_observation(solvers[k], cfgs[k][6] == "1") if ok else None)
+            return outs, reads, finals, cross, fresh
         try:
-            with deadline():
-                outs, reads, solvers, exited, cross, fresh = P.duo(cfgs, steps)
-                finals = []
-                for k in (0, 1):
-                    ok = not exited[k] and not (outs[k] and outs[k][-1].startswith("err"))
-                    finals.append(P.final_observation(solvers[k], cfgs[k][6] == "1") if ok else None)
+            outs, reads, finals, cross, fresh = guarded(one_duo)
             hung = False
         except CaseTimeout:
             outs, reads, finals, cross, fresh = (["err hang"], ["err hang"]), ([], []), [None, None], None, None
@@ -1120,6 +1283,156 @@ def _compare_duos(cfgs, who, cases, impl, model, res):
                          extra=dict(extra0, instance="AB"[k]), label=", instance %s of `%s`" % ("AB"[k], hist))
 
 
+
+# --------------------------------------------------------------------------------------------- glue route
+ROUTE_ALPHA = ["A", "B", "u0", "u1", "u2", "p0", "p1", "p2", "r", "c", "x"]
+ROUTE_OMT_ALPHA = ["A", "u1", "p1", "c", "O", "G"]
+
+
+def check_routes(cfg, who, cases, res, use_lean=True, batch=None):
+    """The functionality reached through its public glue: scripts executed on a tracking solver by
+    `InterpreterOMT.evaluate` command by command and by `SmtLibScript.evaluate(solver)` as a whole.
+    K (scripts without optimisation commands): raw solver state after every command vs the Lean model run on
+    `interp cmds` (driver `evaltrack`).  S: after EVERY command the solver's assertion list = live assertions of the
+    prefix = what get_last_formula reports for the prefix; every check-sat answers the truth for the live assertions;
+    every get-objectives lists exactly one value per objective, computed by the LAST check-sat."""
+    own = batch is None
+    if own:
+        batch = Batch(res)
+    P = py()
+    lines, impl = [], []
+    for n, (toks, legal) in enumerate(cases):
+        if n % 256 == 0:
+            check_bundle_time()
+        plain = not any(t[0] in "osG" for t in toks)
+
+        def one():
+            steps, solver = P.route(cfg, toks)
+            whole = P.route_whole(cfg, toks)
+            prefixes = []
+            if legal:
+                for i in range(1, len(toks) + 1):
+                    prefixes.append(P.last_formula([t for t in toks[:i] if t != "G"]))
+            return steps, whole, prefixes
+        try:
+            steps, whole, prefixes = guarded(one)
+        except CaseTimeout:
+            steps, whole, prefixes = [("err hang", None, None)], ("err hang", None), []
+            try:
+                note_hang()
+            except TooManyHangs:
+                impl.append((steps, whole, prefixes, plain))
+                lines.append("evaltrack %s %s" % (cfg, " ".join(toks)) if plain else "classes")
+                batch.add(lines, lambda model, c=cases[:len(impl)]: _compare_routes(cfg, who, c, impl, model, res))
+                raise
+        impl.append((steps, whole, prefixes, plain))
+        lines.append(("evaltrack %s %s" % (cfg, " ".join(toks))).rstrip() if plain else "classes")
+    batch.add(lines, lambda model: _compare_routes(cfg, who, cases, impl, model, res))
+    if own:
+        batch.flush(use_lean)
+
+
+def _compare_routes(cfg, who, cases, impl, model, res):
+    for n, (toks, legal) in enumerate(cases):
+        steps, whole, prefixes, plain = impl[n]
+        body = " ".join(toks)
+        res.cases += 1
+        res.steps += len(toks)
+        res.count("route_%s" % ("plain" if plain else "omt"))
+        rep = {"kind": "route", "cfg": cfg, "who": who, "cmds": body}
+        # K: the calls the interpreter made, as seen in the solver's raw state
+        calls = [st[0] for st, t in zip(steps, toks) if t[0] in "aupr" or t == "c" or st[0].startswith("err")]
+        if plain and model is not None:
+            if model[n] != ";".join(calls):
+                res.k.append(("script executed on a solver (placement %s): model %s, implementation %s" % (cfg, model[n], ";".join(calls)),
+                              dict(rep, model=model[n], implementation=";".join(calls))))
+        if not legal:
+            continue
+        # S
+        o = Oracle()
+        bad = None
+        ngoals, optcalls, last_values = 0, 0, []
+        for i, t in enumerate(toks):
+            if i >= len(steps):
+                break
+            snap, raw, rv = steps[i]
+            if t == "G":
+                if rv != ",".join(last_values):
+                    bad = (i, "get-objectives lists [%s], the last check-sat computed [%s]" % (rv, ",".join(last_values)))
+                    break
+                continue
+            o.step(t)
+            if t[0] == "o":
+                ngoals += 1
+            if snap.startswith("err"):
+                bad = (i, "raises %s on a legal script" % snap[4:])
+                break
+            live = o.live()
+            if raw != live:
+                bad = (i, "the solver's assertion list is [%s], the live assertions are [%s]" % (ids(raw), ids(live)))
+                break
+            exp_prefix = "ok %s | " % ids(live)
+            if not prefixes[i].startswith(exp_prefix):
+                bad = (i, "get_last_formula of the prefix reports %s, the solver holds [%s]" % (prefixes[i], ids(raw)))
+                break
+            if t == "c":
+                truth = consistent(live)
+                if ngoals == 0:
+                    if rv != ("sat" if truth else "unsat"):
+                        bad = (i, "check-sat answers %s, the live assertions [%s] are %s" % (rv, ids(live), "sat" if truth else "unsat"))
+                        break
+                else:
+                    # single-obj priority: one optimize() per objective declared so far, stop at the first None
+                    last_values = []
+                    for gi in objective_terms(toks[:i]):
+                        optcalls += 1
+                        if not truth:
+                            break
+                        last_values.append("%d=%d" % (gi, optcalls * 1000 + len(live)))
+        if bad is None and legal and not any(t[0] in "oG" for t in toks):
+            final = steps[-1][0] if steps else INIT_SNAPSHOT
+            if whole[0] != final and not (not steps and whole[0] == INIT_SNAPSHOT):
+                bad = (len(toks) - 1, "SmtLibScript.evaluate(solver) leaves the solver in %s, command by command it is %s" % (whole[0], final))
+        if bad is not None:
+            i, msg = bad
+            res.s.append(({"oracle": "assert-stack", "part": "evaluate", "placement": cfg, "call": toks[i][0] if i < len(toks) else "end",
+                           "after": last_stack_cmd(toks[:i + 1])},
+                          "script executed on a solver through SmtLibScript.evaluate / InterpreterOMT (placement of %s): command %d `%s`: %s"
+                          % (who, i, toks[i] if i < len(toks) else "end", msg), dict(rep, step=i)))
+
+
+def objective_terms(toks):
+    return [int(t[1:]) // 8 for t in toks if t[0] == "o"]
+
+
+def random_route(rng, n, omt):
+    toks, nlev = [], 1
+    for i in range(n):
+        r = rng.random()
+        if r < 0.30:
+            toks.append("a%d" % rng.choice([0, 2 * (1 + i % 70), 2 * rng.randrange(6) + rng.randrange(2)]))
+        elif r < 0.48:
+            k = rng.randrange(3)
+            toks.append("u%d" % k)
+            nlev += k
+        elif r < 0.68:
+            k = rng.randrange(min(3, nlev))
+            toks.append("p%d" % k)
+            nlev -= k
+        elif r < 0.72:
+            toks.append("r")
+            nlev = 1
+        elif r < 0.86:
+            toks.append("c")
+        elif omt and r < 0.92:
+            toks.append("o%d" % (8 * (i % 70) + rng.randrange(2)))
+        elif omt:
+            toks.append("G")
+        else:
+            toks.append("x")
+    return toks, True
+
+
 # --------------------------------------------------------------------------------------------- shrinking
 def legal_of(toks, solver_ops):
     o = Oracle()
@@ -1135,7 +1448,7 @@ def shrink(sig, rep):
     """Delete commands while the implementation still fails with the same signature (≤ 200 attempts; the
     implementation and the Python oracle only, no driver)."""
     kind = rep.get("kind")
-    if kind not in ("script", "strict", "track", "duo"):
+    if kind not in ("script", "strict", "track", "duo", "route"):
         return rep, None
     key = {"track": "ops", "duo": "history"}.get(kind, "cmds")
     toks = rep[key].split()
@@ -1165,6 +1478,10 @@ def _shrink_loop(sig, rep, kind, key, toks, t_stop):
                 if "e" in own[:-1]:
                     return None
             check_duos(tuple(rep["cfgs"]), rep.get("who", "?"), [steps], r, use_lean=False)
+        elif kind == "route":
+            if not legal_of([t for t in ts if t != "G"], False):
+                return None
+            check_routes(rep["cfg"], rep.get("who", "?"), [(ts, True)], r, use_lean=False)
         elif kind == "track":
             check_tracks(rep["cfg"], rep.get("who", "?"), [(ts, legal_of(ts, True))], r, True, use_lean=False)
         else:
@@ -1197,9 +1514,11 @@ def weight(task):
     if k == "script_enum":
         return 3 * 13 ** (task["depth"] - len(task["prefix"]))
     if k == "track_enum":
-        return 2 * (12 if task.get("drop") else 18) ** (task["depth"] - len(task["prefix"]))
+        return 2 * (12 if task.get("drop") else 20) ** (task["depth"] - len(task["prefix"]))
     if k == "duo_enum":
         return 4 * 10 ** task["depth"]
+    if k == "route_enum":
+        return 6 * (6 if task["omt"] else 11) ** task["depth"]
     return 25 * task["n"]
 
 
@@ -1219,7 +1538,15 @@ def work(bundle):
             res.count("subtasks_skipped_after_400_reports")
             continue
         try:
-            if kind == "duo_enum":
+            if kind == "route_enum":
+                alpha = ROUTE_OMT_ALPHA if task["omt"] else ROUTE_ALPHA
+                cases = [(list(t), l) for (t, l) in enum_sequences(alpha, task["depth"], [], False)]
+                check_routes(task["cfg"], task["who"], cases, res, batch=batch)
+            elif kind == "route_random":
+                rng = random.Random(task["seed"])
+                cases = [random_route(rng, rng.randrange(6, 41), task["omt"]) for _ in range(task["n"])]
+                check_routes(task["cfg"], task["who"], cases, res, batch=batch)
+            elif kind == "duo_enum":
                 cases = list(enum_duos(task["depth"], task["cfg"][6] == "1"))
                 check_duos((task["cfg"], task["cfg"]), task["who"], cases, res, batch=batch)
             elif kind == "duo_random":
@@ -1242,7 +1569,7 @@ def work(bundle):
             elif kind == "track_random":
                 rng = random.Random(task["seed"])
                 cfg = task["cfg"]
-                cases = [random_ops(rng, rng.randrange(8, 61), cfg[6] == "1", cfg[8] == "1", rng.random() < 0.08)
+                cases = [random_ops(rng, rng.randrange(8, 61), cfg[6] == "1", cfg[8] == "1", rng.random() < 0.08, cfg[9] == "1")
                          for _ in range(task["n"])]
                 check_tracks(cfg, task["who"], cases, res, task["search"], batch=batch)
             else:
@@ -1346,7 +1673,8 @@ def load_table(ctx):
 
 def cfg_bits(p):
     return "".join("1" if p[k] else "0" for k in
-                   ("dAdd", "dPush", "dPop", "dReset", "dSolve", "dRead", "tracking", "native", "pushSupported"))
+                   ("dAdd", "dPush", "dPop", "dReset", "dSolve", "dRead", "tracking", "native", "pushSupported",
+                    "assumePush", "assumeGuarded"))
 
 
 def check_table(ctx, gen, tbl):
@@ -1406,7 +1734,8 @@ def check_table(ctx, gen, tbl):
 NATIVE_CHILD = r"""
 import sys, json, warnings
 warnings.simplefilter("ignore")
-from pysmt.shortcuts import Symbol, Not, Solver
+from pysmt.shortcuts import Symbol, Not, Solver, Or, Plus, Int
+from pysmt.typing import INT
 syms = [Symbol("v%d" % i) for i in range(80)]
 form = {}
 for i, s in enumerate(syms):
@@ -1452,6 +1781,15 @@ for name in job["solvers"]:
                         elif k == "s": obs.append(bool(s.solve()))
                         elif k == "g":
                             obs.append([fid.get(x, -1) for x in s.assertions] if hasattr(s, "assertions") else None)
+                        elif k == "w":
+                            i = int(t[1:])
+                            obs.append(bool(s.solve([Or(form[i], form[i + 2])])))
+                        elif k == "W":
+                            try:
+                                s.solve([Plus(Symbol("ix", INT), Int(1))])
+                                obs.append("no exception")
+                            except Exception as e:
+                                obs.append("raised")
                         elif k == "q":
                             f = form[int(t[2:])]
                             q = t[1]
@@ -1514,9 +1852,12 @@ def native_sequence(rng):
             nlev = 1
         elif r < 0.70:
             toks.append("s")
-        elif r < 0.92:
+        elif r < 0.86:
             q = rng.choice("svua")
             toks.append("q%s%d" % (q, 2 * rng.randrange(4) + (0 if q == "v" else rng.randrange(2))))
+        elif r < 0.92:
+            # non-literal assumption Or(l, l') (Z3Solver: temporary level), or one that cannot be asserted
+            toks.append(rng.choice(["w%d" % (2 * rng.randrange(3) + rng.randrange(2)), "W"]))
         else:
             toks.append("g")
     return toks
@@ -1565,7 +1906,12 @@ def _native_compare(ctx, exe, seqs, solvers):
                     break
                 live = o.live()
                 exp = None
-                if t == "s":
+                if t[0] == "w":
+                    a, b = int(t[1:]), int(t[1:]) + 2
+                    exp = consistent(live) and not ((a ^ 1) in live and (b ^ 1) in live)
+                elif t == "W":
+                    exp = "raised" if name == "z3" else obs[i]      # only Z3Solver asserts such assumptions itself
+                elif t == "s":
                     exp = consistent(live)
                 elif t == "g":
                     exp = live if obs[i] is not None else None
@@ -1573,7 +1919,7 @@ def _native_compare(ctx, exe, seqs, solvers):
                     f = int(t[2:])
                     exp = {"s": consistent(live + [f]), "a": consistent(live + [f]), "u": not consistent(live + [f]),
                            "v": not consistent(live + [f + 1])}[t[1]]
-                if t[0] in "sqg":
+                if t[0] in "sqgwW":
                     nq += 1
                 ctx.evaluations += 1
                 if obs[i] != exp:
@@ -1618,6 +1964,15 @@ def plan(ctx, placements):
         deep = "Z3Solver" in who and zdepth > tdepth
         # Portfolio's placement differs from Z3Solver's only in `_reset_assertions` / no native stack: one level less
         d = tdepth if (quick or "Portfolio" not in who) else tdepth - 1
+        # a class without the assumption path behaves, on every history of the alphabet, like the class with the
+        # same decorators that has it (the path is only entered by `w`/`W`): one level less is enough there
+        twin = cfg[:9] + "10" in by_cfg or cfg[:9] + "11" in by_cfg
+        if cfg[9] == "0" and twin:
+            d -= 1
+        elif cfg[10] == "0" and cfg[:10] + "1" in by_cfg and cfg[6] == "1":
+            # MathSAT5Solver = Z3Solver's placement without the guard: histories without `W` behave identically, the
+            # unguarded path is enumerated to full depth on the direct classes (BddSolver, …) and sampled here
+            d -= 1
         info_depths[cfg] = d
         for a in alpha:
             if d >= 5:
@@ -1645,13 +2000,26 @@ def plan(ctx, placements):
             for other in cfgs_real:
                 tasks.append({"kind": "duo_random", "cfgs": [cfg, other], "who": w + "|" + "+".join(by_cfg[other]),
                               "seed": sd + 300 + j, "n": 150 if quick else 1500})
+    # the glue route: scripts executed on a tracking solver through SmtLibScript.evaluate / InterpreterOMT
+    for cfg, who in sorted(by_cfg.items()):
+        if cfg[6] != "1" or cfg[7] != "1":
+            continue
+        w = "+".join(who)
+        if "Z3Solver" in who:
+            tasks.append({"kind": "route_enum", "cfg": cfg, "who": w, "depth": 4 if quick else 5, "omt": False})
+            tasks.append({"kind": "route_enum", "cfg": cfg, "who": w, "depth": 4 if quick else 6, "omt": True})
+        tasks.append({"kind": "route_random", "cfg": cfg, "who": w, "seed": sd + 500, "n": 200 if quick else 2000, "omt": False})
+        tasks.append({"kind": "route_random", "cfg": cfg, "who": w, "seed": sd + 501, "n": 150 if quick else 1500, "omt": True})
     # ... and deliberately different placements (K only: the model must follow the code there too)
-    others = ["111110110", "111111011", "000000011", "000000111", "110111111", "111011111", "101111111",
-              "011111111", "111101111", "111111110", "111110111"]
+    others = [o + sfx for o, sfx in zip(
+        ["111110110", "111111011", "000000011", "000000111", "110111111", "111011111", "101111111",
+         "011111111", "111101111", "111111110", "111110111", "111111111", "111110011"],
+        ["00", "10", "00", "11", "10", "11", "00", "10", "11", "00", "10", "00", "11"])]
     for _ in range(3 if quick else 12):
         bits = "".join(ctx.rng.choice("01") for _ in range(6))
         tr = ctx.rng.choice("01")
-        others.append(bits + tr + ("1" if tr == "0" else ctx.rng.choice("01")) + "1")
+        ap = ctx.rng.choice("01")
+        others.append(bits + tr + ("1" if tr == "0" else ctx.rng.choice("01")) + "1" + ap + (ctx.rng.choice("01") if ap == "1" else "0"))
     for cfg in others:
         if cfg in by_cfg:
             continue
@@ -1697,6 +2065,7 @@ def run(ctx):
     gen, tbl = load_table(ctx)
     placements = check_table(ctx, gen, tbl)
     tasks, info = plan(ctx, placements)
+    CFG_CLASSES.update({c: "+".join(w) for c, w in info["placements_searched"].items()})
     agg = {}
     t0 = time.time()
     bundles = pack(tasks, ctx.workers * (2 if ctx.tier == "quick" else 12))
@@ -1744,11 +2113,13 @@ def run(ctx):
         native_check(ctx)
     ctx.extra["exhaustive"] = True
     ctx.extra["exhaustive_scope"] = ("scripts: every sequence over the 13-symbol alphabet up to length %d; solvers: every sequence "
-                                     "over the 18-symbol alphabet up to length %d (see `exhaustive_depth_per_placement`) for each placement in `placements_searched`"
+                                     "over the 18/20-symbol alphabet up to length %d (see `exhaustive_depth_per_placement`) for each placement in `placements_searched`"
                                      % (info["script_depth"], info["track_depth"])) + (
         "; Z3Solver placement: additionally length %d over the 12 symbols without push 0 / pop 0 / raising queries" % info["z3_depth"]
         if info["z3_depth"] > info["track_depth"] else "")
     ctx.extra["placements_searched"] = info["placements_searched"]
+    ctx.extra["assumption_path_unprotected"] = sorted(n.rsplit(".", 1)[1] for n, p in placements.items()
+                                                       if p["concrete"] and p["assumePush"] and not p["assumeGuarded"])
     ctx.extra["exhaustive_depth_per_placement"] = info["depths"]
     ctx.extra["transitions"] = agg.get("steps", 0)
     ctx.extra["states"] = len(agg.get("states", ()))
@@ -1761,6 +2132,15 @@ def run(ctx):
 def replay(ctx, rep):
     r = rep.get("replay", rep)
     deadline.armed = watchdog_install()
+    try:
+        gen, tbl = load_table(ctx)
+        for n in [c["name"] for c in tbl]:
+            p = gen.placement(tbl, n)
+            if p["concrete"] and p["usesBaseIsSat"]:
+                b = cfg_bits(p)
+                CFG_CLASSES[b] = (CFG_CLASSES[b] + "+" if b in CFG_CLASSES else "") + n.rsplit(".", 1)[1]
+    except Exception:
+        pass
     res = Result()
     kind = r.get("kind")
     if kind in ("script", "strict"):
@@ -1784,6 +2164,9 @@ def replay(ctx, rep):
                 break
             o.step(tt)
         check_tracks(r["cfg"], r.get("who", "replay"), [(toks, legal)], res, True)
+    elif kind == "route":
+        toks = r["cmds"].split()
+        check_routes(r["cfg"], r.get("who", "replay"), [(toks, legal_of([t for t in toks if t != "G"], False))], res)
     elif kind == "duo":
         check_duos(tuple(r["cfgs"]), r.get("who", "replay"), [parse_duo(r["history"])], res)
     elif kind == "placement":
